@@ -259,6 +259,8 @@ def build_mesh(prog: dict, geo: Geometry):
         # assemble() followed by clear() is a no-op for what is written later: nothing computed during the first
         # assembly (vertex tables, cached patch sets, edge data) may survive it
         mesh.assemble()
+        # ... nor what was done to the vertices of that assembly (moved in place, no backport): the operations are the user's
+        shake_vertices(mesh)
         mesh.clear()
     for pair in prog["merged"]:
         mesh.merge_patches(pair[0], pair[1])
@@ -271,6 +273,18 @@ def build_mesh(prog: dict, geo: Geometry):
     for key, val in prog["settings"]:
         mesh.settings[key] = val
     return mesh, ops
+
+
+def shake_vertices(mesh) -> None:
+    """moves the vertices of an assembled mesh in place (move_to / translate), each by another amount of the order of the model"""
+    pts = [list(v.position) for v in mesh.vertices]
+    size = max((vdist(p, pts[0]) for p in pts), default=1.0) or 1.0
+    for n, v in enumerate(mesh.vertices):
+        d = [0.31 * size * (1 + n % 3), -0.17 * size * (1 + n % 2), 0.23 * size]
+        if n % 2:
+            v.translate(d)
+        else:
+            v.move_to([v.position[i] + d[i] for i in range(3)])
 
 
 NATURAL_EDGES = [(i, (i + 1) % 4) for i in range(4)] + [(i + 4, (i + 1) % 4 + 4) for i in range(4)] + [(i, i + 4) for i in range(4)]
